@@ -292,6 +292,8 @@ def run(repo: Repo, rep: Report, tier: str) -> None:
     from ..delegate import delegate
     rep.rule("provider-survives", "ARTIM cannot expire in the release states (Sta7-Sta12) unless Table 9-10 defines Evt18 there (C05's artim rule)")
     delegate(repo, rep, tier, "C05", ("artim",), "provider-survives", "the provider thread dies between the peer's A-RELEASE-RQ and pynetdicom's answer: neither A-RELEASE-RP nor A-ABORT is ever sent", only=lambda f: any(f"Sta{k}" in (f["key"].get("stmt", "") + f["detail"]) for k in (7, 8, 9, 10, 11, 12)))
+    delegate(repo, rep, tier, "C23", ("never-queued",), "provider-survives", "the association thread dies on a C-CANCEL it is handed as a service request: the peer's A-RELEASE-RQ is read by the provider but never answered, and no abort is sent either")
+    delegate(repo, rep, tier, "C05", ("kill-on-idle",), "provider-survives", "the provider thread is stopped while the A-RELEASE-RP the reactor issued is still queued: the acceptor believes it released (EVT_RELEASED fires), the peer gets neither the response nor an abort")
     delegate(repo, rep, tier, "C04", ("artim-run-state",), "provider-survives", "a timer the state machine stopped is running again: ARTIM expires in an established association (Sta6 has no transition for Evt18), the provider thread dies and a later A-RELEASE-RQ gets neither A-RELEASE-RP nor A-ABORT")
     # in every pass the association's reactor looks for a pending release request (and abort) before it acts on the
     # network timeout: a request that has waited longer than the timeout must still be answered, not met with a
